@@ -117,6 +117,11 @@ class VTime(EngineBase):
             live = [s for s in plan["procs"] if s["kind"] != "never"]
             if rng.random() < 0.15:
                 plan["dup_input"] = rng.randrange(0, 8)
+            if rng.random() < 0.25:
+                # "procs" is any iterable: a tuple, a set, or one that can
+                # be walked only once (generator, map(), process_iter())
+                plan["input_as"] = rng.choice(["tuple", "gen", "iter", "set",
+                                               "gen"])
             if live and rng.random() < 0.15:
                 plan["stale_twin"] = rng.choice(live)["pid"]
                 plan["twin_at"] = rng.randrange(0, 8)
@@ -322,7 +327,18 @@ class VTime(EngineBase):
                         hs.append(hs[plan["dup_input"] % len(hs)])
                     cb = (lambda p: cb_calls.append(p)) if op.get("cb") \
                         else None
-                    out = ("value", psutil.wait_procs(hs, timeout=timeout,
+                    arg = hs
+                    kind_ = plan.get("input_as")
+                    if kind_ == "tuple":
+                        arg = tuple(hs)
+                    elif kind_ == "gen":
+                        arg = (h_ for h_ in hs)
+                    elif kind_ == "iter":
+                        arg = iter(hs)
+                    elif kind_ == "set" and plan.get("dup_input") is None \
+                            and "twin" not in handles:
+                        arg = set(hs)
+                    out = ("value", psutil.wait_procs(arg, timeout=timeout,
                                                       callback=cb))
             except BaseException as e:  # noqa: BLE001
                 from ..kernel import StepLimit
